@@ -33,7 +33,6 @@ from .nodes import (
     InputGroup,
     Node,
     NodeState,
-    TransientIdentity,
     Value,
     Var,
     VarValue,
@@ -58,6 +57,14 @@ def _reduced_sum(*args: Array) -> Array:
     """Computes the sum after reducing arrays to scalars."""
     reduced = (arg.sum() if hasattr(arg, "sum") else arg for arg in args)
     return sum(reduced)
+
+
+def _identity_calc(node: Node, _name: str) -> Calc:
+    """
+    A *caching* identity node. The model log-prob nodes must store their value in the
+    model state, because the Goose interface and the optimizer read them from there.
+    """
+    return Calc(lambda x: x, node, _name=_name, update_on_init=False)
 
 
 def _transform_back(var_transformed: Var) -> Calc:
@@ -171,7 +178,7 @@ class GraphBuilder:
         """Adds the model log-likelihood node with the name ``_model_log_lik``."""
 
         if self.log_lik_node:
-            self.add(TransientIdentity(self.log_lik_node, _name="_model_log_lik"))
+            self.add(_identity_calc(self.log_lik_node, _name="_model_log_lik"))
             return self
 
         _, _vars = self._all_nodes_and_vars()
@@ -184,7 +191,7 @@ class GraphBuilder:
         """Adds the model log-prior node with the name ``_model_log_prior``."""
 
         if self.log_prior_node:
-            self.add(TransientIdentity(self.log_prior_node, _name="_model_log_prior"))
+            self.add(_identity_calc(self.log_prior_node, _name="_model_log_prior"))
             return self
 
         _, _vars = self._all_nodes_and_vars()
@@ -199,7 +206,7 @@ class GraphBuilder:
         """Adds the model log-probability node with the name ``_model_log_prob``."""
 
         if self.log_prob_node:
-            self.add(TransientIdentity(self.log_prob_node, _name="_model_log_prob"))
+            self.add(_identity_calc(self.log_prob_node, _name="_model_log_prob"))
             return self
 
         nodes, _ = self._all_nodes_and_vars()
